@@ -28,11 +28,6 @@ Fixpoint visit_g (ex : executor) (g : bool -> bool) (sc : script) (order : list 
       else visit_g ex g sc rest s1
   end.
 
-(* a STRONG list of the members (list(self._agents.keys()), iterating the dict itself, ...) keeps
-   every member alive until the call returns *)
-Definition hold (l : list Z) (s : st) : st := set_frames (map Some l ++ cur s) s.
-Definition release (n : nat) (s : st) : st := set_frames (skipn n (cur s)) s.
-
 Definition pick (f : act_fn) (is_str : bool) : act_loop :=
   if af_test f is_str then af_then f else af_else f.
 
@@ -131,3 +126,34 @@ Definition create_stmts (order : list reg_struct) (c : Z) (keep : bool) (s : st)
   let a := next_id s in
   let s0 := mkSt (a + 1) (reg s) (if keep then ext s ++ [a] else ext s) (cur s) ((a, c) :: cls s) (sets s) (nuser s) (nlog s) in
   fold_left (fun st x => reg_stmt a c x st) order s0.
+
+(* --- GroupBy.do / map of the translated code: the group loop --- *)
+(* for v in self.groups.values(): <if guard:> gm(v)   where gm is what `method` denotes on a group: for the
+   str form the AgentSet method of that name (one of the translated functions), applied to the group's
+   living members at that moment; an exception leaves the loop *)
+Fixpoint gvisit (call : bool) (gm : list Z -> list Z -> st -> option (st * list Z * bool))
+         (gs : list (Z * list Z)) (perms : list (list Z)) (s : st) : option (st * list (Z * list Z) * bool) :=
+  match gs with
+  | [] => Some (s, [], false)
+  | (key, g) :: gs' =>
+      if call then
+        match gm (hd [] perms) (filter (alive s) g) s with
+        | None => None
+        | Some (s1, log1, rz1) =>
+            if rz1 then Some (s1, [(key, log1)], true) else
+            match gvisit call gm gs' (tl perms) s1 with
+            | None => None
+            | Some (s2, logs, rz) => Some (s2, (key, log1) :: logs, rz)
+            end
+        end
+      else gvisit call gm gs' (tl perms) s
+  end.
+
+Definition run_gfn (ex : executor) (sc : script) (gf : act_fn) (is_str : bool)
+           (inner : act_fn) (inner_is_str : bool) (gs : list (Z * list Z)) (perms : list (list Z)) (s : st)
+  : option (st * list (Z * list Z) * bool) :=
+  let lp := pick gf is_str in
+  match al_src lp with
+  | SrcGroups => gvisit (al_guard lp true) (fun perm snap s' => run_fn ex sc inner inner_is_str perm snap s') gs perms s
+  | _ => None
+  end.
